@@ -21,6 +21,8 @@ type hGen struct {
 	strMin   int    // min bytes per symbolic string value
 	intBound int    // if > 0: |int| < intBound
 	simpleF  bool   // floats restricted to k/4, |k| < 1024 (cheap to print/compare)
+	nonNeg   bool   // ints restricted to 0 <= i < intBound
+	fixKeys  bool   // concrete keys "a","b","c" instead of symbolic ones
 }
 
 var hAllScalars = []Type{TypeNil, TypeBool, TypeInt, TypeFloat, TypeString}
@@ -33,7 +35,11 @@ func (g *hGen) scalar(k Type) *hNode {
 	case TypeInt:
 		n.i = nondetInt()
 		if g.intBound > 0 {
-			verifAssume(verifAnd(n.i > -g.intBound, n.i < g.intBound))
+			if g.nonNeg {
+				verifAssume(verifAnd(n.i >= 0, n.i < g.intBound))
+			} else {
+				verifAssume(verifAnd(n.i > -g.intBound, n.i < g.intBound))
+			}
 		}
 	case TypeFloat:
 		if g.simpleF {
@@ -82,9 +88,14 @@ func (g *hGen) object(depth int) *hNode {
 	}
 	cnt := nondetIntRange(0, g.width)
 	for i := 0; i < cnt; i++ {
-		k := hBytesStr(g.keyBytes)
-		for _, prev := range n.keys {
-			verifAssume(k != prev)
+		var k string
+		if g.fixKeys {
+			k = string([]byte{byte('a' + i)})
+		} else {
+			k = hBytesStr(g.keyBytes)
+			for _, prev := range n.keys {
+				verifAssume(k != prev)
+			}
 		}
 		n.keys = append(n.keys, k)
 		n.kids = append(n.kids, g.value(depth-1))
